@@ -18,6 +18,7 @@ import Mathlib.Analysis.SpecialFunctions.Sqrt
 import QV.Lemmas.Kron
 import QV.Lemmas.KronLoop
 import QV.Lemmas.Hilbert
+import QV.Lemmas.Expand
 import QV.Real
 
 namespace QV.Props
@@ -192,6 +193,74 @@ theorem C04_rho_probs_dense (us : Fin n → M2 ℝ) (rot : Fin n → Bool)
     rotateRhoProbs n us rot ρ σ
       = ((denseK us * (Matrix.of fun a b => toC (ρ a b)) * (denseK us)ᴴ) σ σ).re := by
   rw [C04_rho_probs, C04_fastK_eq_dense us rot hZ]
+
+
+/-! ### the fast paths AS CODED: `_rotate_basis_state` enumerates the expanded states (what the driver executes)
+
+`rotatePsiInnerProdE` / `rotateRhoProbsE` fold over `expandStates n rot σ` — the list `v` the code builds by writing
+`generate_hilbert_space(size = #rotated)` into the rotated sites — in list order. -/
+
+/-- **C04.4/5 (enumeration)** what `_rotate_basis_state` enumerates, for every basis pattern and sample:
+the expanded states are pairwise distinct; they are exactly the states that agree with the sample on every non-rotated
+site; there are `2^#rotated` of them; the list is a reordering of the full space (in `generate_hilbert_space()` order)
+filtered by `agreesOff`; and the ORDER is the code's: state number `i` carries, at the `p`-th rotated site (sites in
+increasing order, `rotSites n rot = (finRange n).filter rot`), bit `m-1-p` of `i` — row `i` of the size-`m` space, big-endian. -/
+theorem C04_expand_enumerates (rot σ : Fin n → Bool) :
+    (expandStates n rot σ).Nodup
+    ∧ (∀ τ, τ ∈ expandStates n rot σ ↔ ∀ j, rot j = false → τ j = σ j)
+    ∧ (expandStates n rot σ).length = 2 ^ (univ.filter (fun s : Fin n => rot s = true)).card
+    ∧ (expandStates n rot σ).Perm ((allStates n).filter (fun τ => agreesOff n rot σ τ))
+    ∧ (∀ (i : ℕ) (hi : i < (expandStates n rot σ).length) (p : Fin (rotSites n rot).length),
+        (expandStates n rot σ)[i] ((rotSites n rot)[p.val])
+          = Nat.testBit i ((rotSites n rot).length - 1 - p.val)) := by
+  refine ⟨expandStates_nodup rot σ, fun τ => ?_, expandStates_length rot σ, expandStates_perm rot σ, ?_⟩
+  · rw [mem_expandStates_iff, agreesOff_iff]
+  · intro i hi p
+    rw [expandStates_getElem]
+    exact expandAt_site rot σ i p
+
+/-- **C04.4 (as coded)** `rotate_psi_inner_prod(basis, σ)` computed by enumerating the expanded states is entry σ of `K ψ`. -/
+theorem C04_inner_prod_enum (us : Fin n → M2 ℝ) (rot : Fin n → Bool) (ψ : (Fin n → Bool) → C ℝ)
+    (σ : Fin n → Bool) :
+    toC (rotatePsiInnerProdE n us rot ψ σ) = (fastK us rot).mulVec (fun τ => toC (ψ τ)) σ := by
+  rw [rotatePsiInnerProdE_eq, C04_inner_prod]
+
+theorem C04_inner_prod_enum_dense (us : Fin n → M2 ℝ) (rot : Fin n → Bool) (ψ : (Fin n → Bool) → C ℝ)
+    (σ : Fin n → Bool) (hZ : ∀ j, rot j = false → m2c (us j) = 1) :
+    toC (rotatePsiInnerProdE n us rot ψ σ) = (denseK us).mulVec (fun τ => toC (ψ τ)) σ := by
+  rw [C04_inner_prod_enum, C04_fastK_eq_dense us rot hZ]
+
+/-- **C04.5 (as coded)** `rotate_rho_probs(basis, σ)` computed by the double enumeration is the real part of the diagonal
+entry of `K ρ Kᴴ`. -/
+theorem C04_rho_probs_enum (us : Fin n → M2 ℝ) (rot : Fin n → Bool)
+    (ρ : (Fin n → Bool) → (Fin n → Bool) → C ℝ) (σ : Fin n → Bool) :
+    rotateRhoProbsE n us rot ρ σ
+      = ((fastK us rot * (Matrix.of fun a b => toC (ρ a b)) * (fastK us rot)ᴴ) σ σ).re := by
+  rw [rotateRhoProbsE_eq, C04_rho_probs]
+
+theorem C04_rho_probs_enum_dense (us : Fin n → M2 ℝ) (rot : Fin n → Bool)
+    (ρ : (Fin n → Bool) → (Fin n → Bool) → C ℝ) (σ : Fin n → Bool)
+    (hZ : ∀ j, rot j = false → m2c (us j) = 1) :
+    rotateRhoProbsE n us rot ρ σ
+      = ((denseK us * (Matrix.of fun a b => toC (ρ a b)) * (denseK us)ᴴ) σ σ).re := by
+  rw [C04_rho_probs_enum, C04_fastK_eq_dense us rot hZ]
+
+/-- the coefficients `Ut_i` paired with the states by `_rotate_basis_state` are the entries of row σ of the fast-path
+operator at the enumerated states -/
+theorem C04_rotate_basis_state (us : Fin n → M2 ℝ) (rot σ : Fin n → Bool) :
+    (rotateBasisState n us rot σ).map (fun cv => (toC cv.1, cv.2))
+      = (expandStates n rot σ).map (fun v => (fastK us rot σ v, v)) := by
+  unfold rotateBasisState
+  rw [List.map_map]
+  refine List.map_congr_left (fun v hv => ?_)
+  simp only [Function.comp, fastK_apply, (mem_expandStates_iff rot σ v).mp hv, if_true]
+
+/-- non-vacuity / order witness: 3 sites, the middle one not rotated, sample `σ = (1,1,0)`: the four expanded states in the
+code's order are `010, 011, 110, 111` (site 0 is the slow bit of the size-2 space) -/
+example :
+    (expandStates 3 ![true, false, true] ![true, true, false]).map (fun v => (List.finRange 3).map v)
+      = [[false, true, false], [false, true, true], [true, true, false], [true, true, true]] := by
+  decide
 
 
 /-! ### the loop form of `_kron_mult` (what the driver executes) -/
